@@ -382,13 +382,25 @@ impl BoundsAnalyzer {
             .insert(name, Bounds::from_variable_type(variable_type));
     }
 
-    pub(crate) fn apply_to_domain(&self, domain: &mut IndexMap<String, DomainVariable>) {
+    /// Copies the inferred ranges into the declared domains and returns the names of the
+    /// variables whose inferred range the declared kind cannot carry (a narrowed Boolean,
+    /// an integer range without an integral point).
+    pub(crate) fn apply_to_domain(
+        &self,
+        domain: &mut IndexMap<String, DomainVariable>,
+    ) -> Vec<String> {
+        let mut unexpressed = Vec::new();
         for (name, variable) in domain {
             let Some(bounds) = self.variable_bounds.get(name).copied() else {
                 continue;
             };
             let tightened_type = match variable.get_type() {
-                VariableType::Boolean => VariableType::Boolean,
+                VariableType::Boolean => {
+                    if bounds.lower > 0.0 || bounds.upper < 1.0 {
+                        unexpressed.push(name.clone());
+                    }
+                    VariableType::Boolean
+                }
                 VariableType::IntegerRange(_, _) => {
                     // round within tolerance first: propagation divides by
                     // coefficients, so a bound like 1.9 * (1 / 1.9) sits just
@@ -399,6 +411,7 @@ impl BoundsAnalyzer {
                         // There is no integral point in the inferred interval.
                         // Keep the declared domain: the original constraint
                         // rows will report infeasibility at solve time.
+                        unexpressed.push(name.clone());
                         continue;
                     }
                     VariableType::IntegerRange(lower as i32, upper as i32)
@@ -410,6 +423,15 @@ impl BoundsAnalyzer {
             };
             variable.set_type(tightened_type);
         }
+        unexpressed
+    }
+
+    /// Forgets the inferred range of a variable and falls back to its declared one. Used for
+    /// the ranges `apply_to_domain` could not publish: the linear model does not enforce them,
+    /// so the lowering must not rely on them.
+    pub(crate) fn reset_to_declared(&mut self, name: &str, variable_type: &VariableType) {
+        self.variable_bounds
+            .insert(name.to_string(), Bounds::from_variable_type(variable_type));
     }
 
     fn propagate_affine_constraints(&mut self, constraints: &[Constraint], max_steps: usize) {
